@@ -23,8 +23,16 @@ histories:
   positive and report that probability -- also when the pmf the learner samples from does not sum to exactly 1
   (Corral's weights are only 1e-4 accurate; FixedLearner accepts any pmf with round(sum,3)==1).  The harness reads the
   generator state back (frame of the real generator) and counts the cases in which the extreme draw was really made.
+* CALLER-OWNED OBJECTS (sharing pattern): in the "shared" histories the caller keeps ONE actions list (and one context
+  object) for the whole history and edits it IN PLACE between the calls (append / pop / del / item assignment / slice
+  assignment / clear+extend) -- the offered set of round t+1 arrives in the very list object that carried round t's set;
+  the edit happens either before the round's predict or between learn and the score calls.  The answer must be the one
+  for the actions that are offered NOW: all contracts above apply unchanged, and for the deterministic-policy learners
+  a TWIN learner of the same configuration is fed the same (context, action, reward, probability) history but only ever
+  sees fresh, equal copies of the objects; predict's probability and every score of the learner under test must equal
+  the twin's score (1e-12): the policy is a function of the history and of the VALUE of what is offered.
 """
-import sys, os, math, signal, traceback, subprocess, json
+import sys, os, math, signal, traceback, subprocess, json, copy
 from collections import Counter
 
 ID    = "C16"
@@ -38,11 +46,17 @@ RULE  = ("seeded histories (length 0-400) of (context, offered action set, rewar
          "of one learner (top learner or a base learner of a Corral) is computed by LCG inversion so that the k-th "
          "draw (k = 1..40, enumerated) of its own generator is the largest uniform 1-2^-30 or exactly 0.0, over Corral "
          "(both modes) and the PMFPredictor learners with pmfs holding leading / trailing zero entries and pmfs that "
-         "sum to slightly less or more than 1; distinct = additionally (target, which uniform, k)")
+         "sum to slightly less or more than 1; distinct = additionally (target, which uniform, k); plus shared-object "
+         "histories: the caller owns ONE actions list (and one context object) and edits it in place between calls "
+         "(element-wise append/pop/del/setitem, slice assignment, clear+extend; before predict or between learn and "
+         "score) while the set grows / shrinks / swaps / churns / permutes, every learner family, deterministic-policy "
+         "learners compared with a twin that only sees fresh equal copies; distinct = additionally (edit style, edit "
+         "point, shared context)")
 ADV_CASES = {"quick": 1600, "thorough": 16000}          # adversarial-seed histories (part of PLAN[...]["cases"])
 ADV_DRAWS = 40
-PLAN  = {"quick":    {"shards": 16, "cases": 2400 + ADV_CASES["quick"],     "timeout": 600,  "budget_s": 80},
-         "thorough": {"shards": 16, "cases": 60000 + ADV_CASES["thorough"], "timeout": 3000, "budget_s": 840}}
+SHARE_CASES = {"quick": 640, "thorough": 8000}          # shared-object histories (part of PLAN[...]["cases"])
+PLAN  = {"quick":    {"shards": 16, "cases": 2400 + ADV_CASES["quick"] + SHARE_CASES["quick"],        "timeout": 600,  "budget_s": 80},
+         "thorough": {"shards": 16, "cases": 60000 + ADV_CASES["thorough"] + SHARE_CASES["thorough"], "timeout": 3000, "budget_s": 840}}
 REQUIRED = ["contract.predict.action_offered", "contract.predict.prob_in_range", "contract.predict.prob_is_policy",
             "contract.score.in_range", "contract.corral.weights", "oracle.scores.sum_to_one", "oracle.learn.corral",
             "oracle.learn.logged", "oracle.final_predict", "monitor.omd.line_events", "oracle.learn.corral.eta>=10",
@@ -51,7 +65,11 @@ REQUIRED = ["contract.predict.action_offered", "contract.predict.prob_in_range",
             "adv.placed.corral-base.uniform=zero", "adv.placed.pmf-learner.uniform=max", "adv.placed.pmf-learner.uniform=zero",
             "adv.reach.corral.uniform=max.draw>=sum(weights)", "adv.reach.corral.uniform=max.draw>=sum(weights)+last-action-prob=0",
             "adv.reach.corral.uniform=zero.first-action-prob=0", "adv.reach.pmf-learner.uniform=max.last-action-prob=0",
-            "adv.reach.pmf-learner.uniform=zero.first-action-prob=0", "adv.reach.fixed.uniform=max.draw>=sum(pmf)+last-action-prob=0"]
+            "adv.reach.pmf-learner.uniform=zero.first-action-prob=0", "adv.reach.fixed.uniform=max.draw>=sum(pmf)+last-action-prob=0",
+            "share.same-list-new-content.length-changed", "share.same-list-new-content.same-length",
+            "share.same-list-new-content.first-seen-by=predict", "share.same-list-new-content.first-seen-by=score",
+            "share.twin.score==fresh-copies", "share.twin.predict-prob==fresh-copies", "share.histories.corral",
+            "share.histories.eps", "share.histories.ucb", "share.histories.misguided"]
 ASSUMPTIONS = [
     "score == predict's probability and sum(score)==1 are asserted only for Random/Fixed/BanditEpsilon/BanditUCB "
     "(and Misguided over them); Corral's policy is random given the history (it samples its base learners), so for "
@@ -65,6 +83,11 @@ ASSUMPTIONS = [
     "logged probabilities lie in [1e-6, 1]",
     "adversarial seeds: the generator state is read from the frame of the real generator (reach accounting and the /uniform= "
     "suffix of a signature only; no verdict depends on it); Corral seeds are 52-bit integers (any int is a legal seed)",
+    "shared-object histories: only the CONTAINERS the caller owns are edited in place (the actions list, a list/dict context); "
+    "an action object itself (a dense list / sparse dict the learner may have learned about) is never modified; the list always "
+    "holds a legal action set (no duplicates, >= 1 action) at the time of a call; the twin comparison is made only for "
+    "Random/Fixed/BanditEpsilon/BanditUCB and Misguided over them (their policy is a deterministic function of the history); "
+    "for Corral only the validity contracts apply",
 ]
 
 STEP_LIMIT   = 10**6
@@ -421,6 +444,64 @@ def gen_adv_case(rng, j):
     spec["meta"]["adv"] = [target.split(":")[0], tl["k"], uniform, k]
     return spec
 
+# ------------------------------------------------------------------------------------------ caller-owned objects
+SHARE_EDITS  = ["elementwise", "elementwise", "slice", "clear-extend"]
+SHARE_POINTS = ["before-predict", "before-predict", "before-score"]
+SHARE_DYNS   = ["grow", "shrink", "swap", "churn", "churn", "permute", "fixed"]
+SHARE_LENGTHS = [3, 5, 8, 15, 30, 30, 60, 100]
+
+def gen_share_case(rng, j):
+    """a history in which the caller keeps ONE actions list (and one context object) and edits it in place; j enumerates
+    (learner family, edit point) so that every family meets every edit point in every shard"""
+    fam   = ["eps", "ucb", "corral", "misguided", "eps", "ucb", "corral", "random", "eps", "ucb", "misguided", "fixed"][j % 12]
+    point = SHARE_POINTS[(j // 12) % len(SHARE_POINTS)]
+    akind = rng.choice(AKINDS)
+    dyn   = rng.choice(SHARE_DYNS)
+    n0    = rng.randint(2, 6)
+    const = ("fixed", "permute", "swap", "churn")
+    if fam == "corral":
+        learner = gen_corral(rng, n0, dyn in const)
+    elif fam == "misguided":
+        k = rng.choice(["eps", "ucb", "eps", "ucb", "random", "fixed"])
+        if k == "fixed" and dyn not in const: dyn = "swap"
+        learner = {"k": "misguided", "sh": rng.choice(MIS_ANY), "inner": gen_base(rng, k, n0)}
+    else:
+        if fam == "fixed" and dyn not in const: dyn = "churn"
+        learner = gen_base(rng, fam, n0)
+    spec = _gen_history(rng, learner, akind, dyn, n0, length=rng.choice(SHARE_LENGTHS))
+    spec["share"] = {"edit": rng.choice(SHARE_EDITS), "point": point, "context": rng.choice(["list", "dict", None])}
+    spec["meta"]["share"] = [spec["share"]["edit"], point, spec["share"]["context"]]
+    return spec
+
+def _edit_in_place(L, new, style):
+    """make list L hold `new` WITHOUT creating a new list object; returns 'length-changed' / 'same-length' / None (no change)"""
+    old_len = len(L)
+    same = old_len == len(new) and all(a is b for a, b in zip(L, new))
+    if same: return None
+    if style == "slice":
+        L[:] = new
+    elif style == "clear-extend":
+        L.clear(); L.extend(new)
+    else:
+        # the edits a caller that tracks "the arms available now" makes: retire arms that are gone (del / pop / remove-like),
+        # overwrite positions whose arm changed, append the arms that arrived
+        keep = [a for a in L if any(a is b for b in new)]
+        if keep == [b for b in new if any(b is a for a in keep)] and len(keep) < len(L):
+            for i in range(len(L) - 1, -1, -1):                       # pure removals keep the order of the survivors
+                if not any(L[i] is b for b in new):
+                    if i == len(L) - 1: L.pop()
+                    else: del L[i]
+        while len(L) > len(new): L.pop()
+        for i in range(len(L)):
+            if L[i] is not new[i]: L[i] = new[i]
+        for b in new[len(L):]: L.append(b)
+    assert len(L) == len(new) and all(a is b for a, b in zip(L, new))
+    return "length-changed" if old_len != len(new) else "same-length"
+
+def _fresh(obj):
+    """a fresh, equal copy (what a caller that builds its objects anew on every round hands over)"""
+    return copy.deepcopy(obj)
+
 def _own_rng(obj):
     """the CobaRandom a learner object draws from (searched in its attributes, two levels deep; None if not found)"""
     from coba.random import CobaRandom
@@ -521,7 +602,16 @@ def check_case(spec, ctx=None, upto=None):
         note(f"adv.placed.{cat}.uniform={adv['uniform']}")
         return True
 
+    share  = spec.get("share")
+    shst   = {"edited": False, "unseen": None}       # unseen: the list holds new content that no call has seen yet
+
     def fail(sig, what):
+        if share and shst["edited"]:
+            sig += "/actions-list-edited-in-place"
+            # Corral hands the list to its base learners through SafeLearner, which keeps a converted COPY of the first
+            # action set it sees iff that set holds 0 or 1 (a structural feature of the history, named in the signature)
+            if core["k"] == "corral" and shst.get("first01"): sig += "/first-offered-set-held-0-or-1"
+            what = f"{what} [the caller offers ONE list object and edited it in place ({share['edit']}, {share['point']})]"
         if adv_at_extreme():
             sig += "/uniform=" + ("largest" if adv["uniform"] == "max" else "0.0")
             what = f"{what} [the {adv['draw']}-th draw of the generator of learner '{adv['target']}' is {U_MAX if adv['uniform'] == 'max' else 0.0!r}]"
@@ -541,6 +631,35 @@ def check_case(spec, ctx=None, upto=None):
     sloppy  = any(abs(sum(pmf) - 1) > 1e-12 for pmf in _fixed_pmfs(lspec))       # only in adversarial-seed histories
     sum_tol = 1e-3 if sloppy else 1e-9
 
+    twin = None
+    if share:
+        note(f"share.histories.{lspec['k']}")
+        AL = []                                                              # THE actions list of this caller
+        XC = {"list": [], "dict": {}}.get(share["context"])                   # THE context object of this caller (or None: per-round values)
+        if det:
+            try:    twin = build(lspec)
+            except BaseException as e:
+                return fail(f"{cls}.__init__/raise:{type(e).__name__}@{_where(e)}", f"{type(e).__name__}: {e}")
+
+    def offer(values, first_call):
+        """the caller puts the action set into its list (in place)"""
+        how = _edit_in_place(AL, values, share["edit"])
+        if how is None or not shst.get("offered"): return
+        shst["edited"] = True
+        shst["unseen"] = first_call
+        note(f"share.same-list-new-content.{how}")
+
+    def seen(op):
+        if share and shst["unseen"]:
+            note(f"share.same-list-new-content.first-seen-by={op}")
+            shst["unseen"] = None
+        if share: shst["offered"] = True
+
+    def twin_scores(x, A):
+        """the policy of the twin (same history, fresh equal copies of everything it is handed)"""
+        x2, A2 = _fresh(x), _fresh(list(A))
+        return [twin.score(x2, A2, b2) for b2 in A2]
+
     prevA = None
     tiny_iw = False
     for t, rd in enumerate(rounds):
@@ -548,6 +667,14 @@ def check_case(spec, ctx=None, upto=None):
         A = [universe[i] for i in rd["A"]]
         x = rd["x"]
         last = (t == len(rounds) - 1)
+        if share:
+            if t == 0 or share["point"] == "before-predict": offer(A, "predict")
+            A = AL
+            if t == 0: shst["first01"] = any(isinstance(b, (int, float)) and b in (0, 1) for b in A)
+            if XC is not None:                                                # the context object is re-filled in place as well
+                if isinstance(XC, list): XC[:] = [t % 3, rd["x"] if isinstance(rd["x"], (int, str)) else 0]
+                else: XC.clear(); XC.update({"t": t % 3, "k" + str(t % 2): 1})
+                x = XC
         if prevA is not None and prevA != rd["A"]: note("oracle.actions.changed_between_rounds")
         prevA = rd["A"]
         try:
@@ -557,8 +684,17 @@ def check_case(spec, ctx=None, upto=None):
             if adv_now and core["k"] == "corral":
                 try:    w_sum = sum(reg["top"]._p_bars)
                 except Exception: w_sum = None
+            if twin is not None: want = twin_scores(x, A)
             pred = learner.predict(x, A)
+            seen("predict")
             note("oracle.predict")
+            if twin is not None:
+                pos = next((i for i, b in enumerate(A) if b is pred[0]), None)
+                if pos is None: pos = next(i for i, b in enumerate(A) if b == pred[0])
+                note("share.twin.predict-prob==fresh-copies")
+                if not (_num(pred[1]) and abs(pred[1] - want[pos]) <= 1e-12):
+                    return fail(f"{cls}.predict/prob!=policy-of-same-history-offered-fresh-equal-objects",
+                                f"predict returned {pred[:2]!r} over {A!r}; a twin learner with the same history scores {want}")
             if last: note("oracle.final_predict")
             a, p = pred[0], pred[1]
             kw = pred[2] if len(pred) > 2 else {}
@@ -593,6 +729,11 @@ def check_case(spec, ctx=None, upto=None):
                 _STEPS[0] = 0
                 learner.learn(x, la, r, lp, **kw)
                 if _STEPS[0] > _STEPS[1]: _STEPS[1] = _STEPS[0]
+                if twin is not None:
+                    step["op"] = "learn(twin)"
+                    twin.learn(_fresh(x), _fresh(la), r, lp)
+                if share and share["point"] == "before-score":
+                    offer([universe[i] for i in rounds[t+1]["A"]], "score")    # the next set arrives before the score calls
                 note("oracle.learn")
                 if core["k"] == "corral":
                     note("oracle.learn.corral")
@@ -605,8 +746,16 @@ def check_case(spec, ctx=None, upto=None):
                 for b in A:
                     scores.append(learner.score(x, A, b)); adv_probe()      # (Corral's score lets its base learners draw)
             else:
-                scores = [learner.score(x, A, b) for b in A]
+                scores = []
+                for b in list(A):
+                    scores.append(learner.score(x, A, b)); seen("score")
             note("oracle.scores")
+            if twin is not None:
+                want = twin_scores(x, A)
+                note("share.twin.score==fresh-copies")
+                if len(want) != len(scores) or any(not _num(s1) or abs(s1 - s2) > 1e-12 for s1, s2 in zip(scores, want)):
+                    return fail(f"{cls}.score/!=policy-of-same-history-offered-fresh-equal-objects",
+                                f"scores {scores} over {A!r}; a twin learner with the same history scores {want}")
             if det:
                 note("oracle.scores.sum_to_one")
                 if any(not _num(s) or s < 0 for s in scores):
@@ -632,7 +781,7 @@ def _alarm(signum, frame): raise WallClock()
 
 def case_key(spec):
     m = spec["meta"]
-    return (learner_sig(spec["learner"]), m["akind"], m["dyn"], m["rpat"], m["logm"], tuple(m.get("adv", ())))
+    return (learner_sig(spec["learner"]), m["akind"], m["dyn"], m["rpat"], m["logm"], tuple(m.get("adv", ())), tuple(m.get("share", ())))
 
 def run_shard(ctx):
     _install()
@@ -642,10 +791,15 @@ def run_shard(ctx):
     import random
     n_adv  = min(ctx.n, ADV_CASES[ctx.tier] // ctx.nshards)
     advrng = random.Random(f"{ctx.seed}/C16/adv/{ctx.tier}/{ctx.shard}")
+    # then the shared-object histories (same reasons, own stream)
+    n_shr  = min(ctx.n - n_adv, SHARE_CASES[ctx.tier] // ctx.nshards)
+    shrrng = random.Random(f"{ctx.seed}/C16/share/{ctx.tier}/{ctx.shard}")
     i = 0
     while i < ctx.n and ctx.time_left() > 0:
         is_adv = i < n_adv
-        spec = gen_adv_case(advrng, ctx.shard + ctx.nshards * i) if is_adv else gen_case(ctx.rng)
+        if is_adv:              spec = gen_adv_case(advrng, ctx.shard + ctx.nshards * i)
+        elif i < n_adv + n_shr: spec = gen_share_case(shrrng, ctx.shard + (i - n_adv))
+        else:                   spec = gen_case(ctx.rng)
         n_learn = len(spec["rounds"]) - 1
         signal.setitimer(signal.ITIMER_REAL, CASE_WALL_S)
         try:
@@ -657,7 +811,7 @@ def run_shard(ctx):
             signal.setitimer(signal.ITIMER_REAL, 0)
         ctx.case(case_key(spec), nontrivial=n_learn >= 3)
         ctx.count(f"histories.top={spec['learner']['k']}")
-        if i < 2 or n_adv <= i < n_adv + 2: ctx.sample({"learner": spec["learner"], "meta": spec["meta"], "n_rounds": n_learn, "first_rounds": spec["rounds"][:2]})
+        if i < 2 or n_adv <= i < n_adv + 2 or n_adv + n_shr <= i < n_adv + n_shr + 1: ctx.sample({"learner": spec["learner"], "meta": spec["meta"], "n_rounds": n_learn, "first_rounds": spec["rounds"][:2]})
         for sig, what in v:
             wit = dict(spec)
             k = wit.pop("_failed_at", None)
